@@ -34,6 +34,29 @@ func init() {
 	specsFor["C08"] = c08Specs
 	checks["C08"] = func(c *Ctx) *Result {
 		r := runSpecs(c, c08Specs(c.Tier))
+		if r.Found == nil {
+			sizes := []int{40}
+			if c.Tier == "thorough" {
+				sizes = []int{17, 40, 150}
+			}
+			total := 0
+			for _, n := range sizes {
+				for _, cfg := range []Cfg{defaultCfg, {Fast: false}, {Fast: true, Cache: 1000}} {
+					if len(r.Raw) > 0 {
+						break
+					}
+					k, fail := bigTreeIter(n, cfg)
+					total += k
+					if fail != "" {
+						rawViolation(c, r, fail, map[string]any{"keys": n, "cfg": cfg})
+					}
+				}
+			}
+			r.States += total
+			r.Transitions += total
+			r.Extra = map[string]any{"large_tree_supplement": map[string]any{"sizes": sizes, "range_queries": total,
+				"note": "fixed large scenarios (not exhaustive): two committed versions and a working tree with uncommitted additions, updates and removals; 15 x 15 bounds x 2 directions on every iteration interface with a stop request at every position"}}
+		}
 		r.Assumptions = []string{
 			"a nil bound is unbounded, a non-nil bound (including the empty slice) is compared literally: [start, \"\") is empty",
 			"Domain() is compared up to nil/empty equality; Next/Key/Value are not called on an invalid iterator (documented to panic)",
